@@ -201,7 +201,7 @@ class P(Property):
             'non-minimal integers, Delta Base values) and their grammar-directed single-point mutations (Required Insert Count, S bit, '
             'T bit, pattern bits, static index 98/99/100, bit flips, truncation, insertion, deletion, trailing octets), integers with '
             '8..11 continuation octets, Huffman payloads with 0..40 bits of one-padding, seeded random strings, finite limits around '
-            'the section size, sections of 50..1000 field lines (valid, and with one bad line first / in the middle / last), string lengths k*2^32+j, k*2^16+j with j octets present in all four string positions; every q.enc output is also read back by the own decoder of h3; 150 (quick) refused sections are sent by a scripted peer to the real server and client over SimQuic as request, response, request trailers and response trailers: connection error 0x200 and close(0x200) required; q.decc: the same kinds of inputs handed over as NON-contiguous multi-chunk buffers (h3v::ChunkBuf), cut at every position (one cut), at every pair of positions (two cuts), into single octets, and at seeded random positions. non-trivial = distinct q.enc cases with a '
+            'the section size, sections of 50..1000 field lines (valid, and with one bad line first / in the middle / last), string lengths k*2^32+j, k*2^16+j with j octets present in all four string positions; every q.enc output is also read back by the own decoder of h3; the HEADERS payloads written by the three production send sites (both roles, lists up to 300 fields x 300 octets) are read back by the reference decoder; the section prefix at S x Delta Base up to 2^63+126 and Required Insert Count up to 2^64-1; string literals of 301..65536 octets (2^20 in thorough) really present in all four positions, raw and (up to 4097 / 16511) Huffman; 150 (quick) refused sections are sent by a scripted peer to the real server and client over SimQuic as request, response, request trailers and response trailers: connection error 0x200 and close(0x200) required; q.decc: the same kinds of inputs handed over as NON-contiguous multi-chunk buffers (h3v::ChunkBuf), cut at every position (one cut), at every pair of positions (two cuts), into single octets, and at seeded random positions. non-trivial = distinct q.enc cases with a '
             'non-empty list and distinct q.dec/q.decc cases in which the field-line loop is entered (a 2-octet prefix with Required '
             'Insert Count 0 and S=0 followed by at least one octet)')
     trusted_extra = [
@@ -368,6 +368,42 @@ class P(Property):
                         fl = hbit if n_ == 7 else 4 + hbit
                         out.append('q.dec - 0000' + (pre + pint(n_, fl, nb) + body + tail).hex())
                         out.append('q.dec - 0000' + (pre + pint(n_, fl, nb) + body + tail + b'\xd1').hex())
+        # --- the section prefix at its magnitudes: S x Delta Base up to 2^63+126 (the largest the integer decoder reads),
+        #     Required Insert Count at multiples of 256 and powers of two
+        for delta in (0, 1, 126, 127, 128, 2 ** 16, 2 ** 31 - 1, 2 ** 31, 2 ** 32 - 1, 2 ** 32, 2 ** 43, 2 ** 62 - 1, 2 ** 62,
+                      2 ** 63 - 2, 2 ** 63 - 1, 2 ** 63, 2 ** 63 + 1, 2 ** 63 + 125, 2 ** 63 + 126, 2 ** 63 + 127, 2 ** 64 - 1):
+            for sbit in (0, 1):
+                for ex in (0, 1):
+                    e = pint(7, sbit, delta, ex)
+                    out.append('q.dec - 00' + e.hex() + 'd1')
+                    out.append('q.dec - 00' + e.hex())
+                    out.append('q.dec 41 00' + e.hex() + 'd1')
+        for ric in (1, 2, 254, 255, 256, 257, 511, 512, 2 ** 16, 2 ** 16 + 256, 2 ** 28, 2 ** 32, 2 ** 32 + 256, 2 ** 62, 2 ** 63,
+                    2 ** 63 + 254, 2 ** 63 + 255, 2 ** 64 - 1):
+            for tail in ('00d1', '80d1', '00', ''):
+                out.append('q.dec - ' + pint(8, 0, ric).hex() + tail)
+        # --- long string literals that are really PRESENT, in all four string positions, raw and Huffman
+        #     (Huffman only up to 4097 / 16511 octets: the extracted decoder model is quadratic in the payload length)
+        raw_lens = [301, 1024, 4095, 4096, 4097, 16511, 65536] + ([] if quick else [2 ** 20])
+        huf_lens = [301, 1024, 4096, 4097] + ([] if quick else [16511])
+        for hbit, lens in ((0, raw_lens), (1, huf_lens)):
+            for n in lens:
+                s = bytes((97 + (i * 7 + n) % 26) for i in range(n))
+                body = huff(s) if hbit else s
+                for pre, n_, tail in ((b'\x51', 7, b''), (b'\x5f\x53', 7, b'\xd1'), (b'\x41', 7, b''), (b'', 3, b'\x01v'), (b'\x21x', 7, b'\xd1')):
+                    fl = hbit if n_ == 7 else 4 + hbit
+                    out.append('q.dec - 0000' + (pre + pint(n_, fl, len(body)) + body + tail).hex())
+                    if n <= 4097:
+                        out.append('q.dec %d 0000%s' % (n + 40, (pre + pint(n_, fl, len(body)) + body + tail).hex()))
+                # the same strings through the encoder
+                if n <= 65536:
+                    out.append('q.enc ' + fields_str([(b':path', s)]))
+                    if n <= 4097:
+                        out.append('q.enc ' + fields_str([(s, s[:7])]))
+        # --- big blocks: 300 fields of 300 octets
+        for _ in range(1 if quick else 8):
+            out.append('q.enc ' + fields_str([(b'n%d' % i, rb(rng, 300)) for i in range(300)]))
+            out.append('q.enc ' + fields_str([(rng.choice(NAMES), rand_bytes_string(rng, 300)) for _ in range(300)]))
         # --- every static index, indexed and by name, around the end of the table
         for i in list(range(0, 130)) + [255, 256, 2 ** 16, 2 ** 32, 2 ** 62, 2 ** 63, 2 ** 63 + 62, 2 ** 63 + 63, 2 ** 64 - 1, 2 ** 64 + 5]:
             out.append('q.dec - 0000' + pint(6, 3, i).hex())
@@ -498,6 +534,34 @@ class P(Property):
                 if not ok:
                     viol.append(('property-fails-on-input', {'input': l, 'impl': r[:300], 'model': None,
                                                              'spec': 'res=err:c:512 tx=- log=close:512 (connection error QPACK_DECOMPRESSION_FAILED)'}))
+                    break
+        # 1d. the three PRODUCTION encode sites (send_request, send_response, send_trailers, both roles) over SimQuic: the payload of the
+        #     HEADERS frame they write, read by the reference decoder, must be the message's field list, in order
+        if 'c10' in ctx['bins'] and ctx['model_exe'] and len(viol) < 3:
+            rng = ctx['rng']
+            vals = bytes(range(0x20, 0x7f)) + bytes(range(0x80, 0x100)) + b'\t'
+
+            def hv(n):
+                v = bytes(rng.choice(vals) for _ in range(n))
+                return v.strip(b' \t') or b'v'                         # the http crate keeps values verbatim; avoid OWS-only edge values
+            lists = [[], [(b'x', b'v')], [(b'n%d' % i, hv(300)) for i in range(300)], [(b'n%d' % i, hv(300)) for i in range(60)],
+                     [(rng.choice(NAMES).lstrip(b':') + b'-%d' % i, hv(rng.randint(1, 300))) for i in range(rng.randint(1, 40))]]
+            for _ in range(6 if ctx['tier'] == 'quick' else 200):
+                lists.append([(b'h%d' % i, hv(rng.choice([1, 7, 127, 128, 300]))) for i in range(rng.choice([1, 5, 55, 56, 100, 300]))])
+            pseudo = {'cli.req': [(b':method', b'GET'), (b':scheme', b'https'), (b':authority', b'a'), (b':path', b'/')],
+                      'srv.resp': [(b':status', b'200')], 'cli.trl': [], 'srv.trl': []}
+            lines, want = [], []
+            for fs in lists:
+                for site in ('cli.req', 'srv.resp', 'cli.trl', 'srv.trl'):
+                    lines.append('site.enc %s %s' % (site, fields_str(fs)))
+                    want.append(fields_str(pseudo[site] + fs))
+            res = run_cases(ctx['bins']['c10'], lines)
+            refs = run_cases(ctx['model_exe'], ['q.ref ' + (r.split()[1] if r.startswith('ok ') and len(r.split()) == 2 else '00') for r in res])
+            self.site_enc_cases = len(lines)
+            for l, r, d, wnt in zip(lines, res, refs, want):
+                if not r.startswith('ok ') or d.split(' | ')[0].strip() != 'ok ' + wnt:
+                    viol.append(('property-fails-on-input', {'input': l[:2000], 'impl': r[:300], 'model': None,
+                                                             'spec': 'reference decoder on the HEADERS payload written by the send site: %s (expected ok %s)' % (d[:200], wnt[:200])}))
                     break
         # 2. known finding F15b propagated through string literals
         n = 0
